@@ -1,8 +1,9 @@
 (* Extraction of the SPECIFICATION only (oracle of the falsifiers). *)
 From Coq Require Import ZArith List String.
 From Coq Require Import ExtrOcamlBasic ExtrOcamlString.
-From BB Require Import Base.Bits Spec.RV32.
+From BB Require Import Base.Bits Spec.RV32 Spec.RVC.
 Extraction Language OCaml.
 Separate Extraction
   BinInt.Z.add BinInt.Z.mul BinInt.Z.opp BinInt.Z.div_eucl BinInt.Z.eqb BinInt.Z.ltb
-  RV32.decode32 RV32.name_ops RV32.denote32.
+  RV32.decode32 RV32.name_ops RV32.denote32
+  RVC.decode16 RVC.expand_c RVC.name_ops16 RVC.denote16.
